@@ -1,4 +1,5 @@
 import RsMatterVerif.Model.Subs
+import RsMatterVerif.Model.SubsRings
 import Driver.Util
 import Driver.C13Sys
 /-! Driver for C13: replays subscription-table histories on `Model/Subs` (output compared with the
@@ -98,6 +99,11 @@ structure St where
   dead : Bool := false
   /-- `some` while a system-level case (header kind `sys`) is being judged by `Driver.C13Sys` -/
   sys : Option Driver.C13Sys.St := none
+  /-- `some` in an `evq` case: the numbering of the event queue (`Subs.EvQ`) -/
+  evq : Option EvQ := none
+  /-- `some` in an `evs` case: the event rings (`Chunk.Queue`), the length of an event with an empty payload,
+  the event id of every number pushed (model side) -/
+  evs : Option (Chunk.Queue × Nat × List (Nat × Nat)) := none
 
 def pathEntry (u : Nat × Nat × Nat) : Entry := { ep := u.1, cl := u.2.1, attr := u.2.2, id := 0 }
 
@@ -352,7 +358,8 @@ def modelStep (m : State) (ws : List String) : Option (State × String) :=
   | ["add", now, fab, peer, mn, mx, ev] =>
     match now.toNat?, fab.toNat?, peer.toNat?, mn.toNat?, mx.toNat?, ev.toNat? with
     | some now, some fab, some peer, some mn, some mx, some ev =>
-      let r := m.add now fab peer mn mx ev
+      -- the `u32` arithmetic of `next_subscription_id` (equal to `State.add` below 2^32: `C13.add_u32_agrees`)
+      let r := m.addU32 now fab peer mn mx ev
       some (r.1, match r.2 with | some id => s!"some {id}" | none => "none")
     | _, _, _, _, _, _ => none
   | ["rep", now, ev] =>
@@ -403,10 +410,143 @@ def modelStep (m : State) (ws : List String) : Option (State × String) :=
     | _, _ => none
   | _ => none
 
+/-! ## `evs` cases: the event rings, the table and the reader together -/
+
+/-- extra bytes of the TLV of an event whose number needs more than one byte -/
+def numExtra (n : Nat) : Nat := if n < 256 then 0 else if n < 65536 then 1 else if n < 4294967296 then 3 else 7
+
+def rNums (l : List Nat) : String := if l.isEmpty then "-" else ",".intercalate (l.map toString)
+
+def rQueue (q : Chunk.Queue) (ids : List (Nat × Nat)) : String :=
+  let eid (n : Nat) : Nat := ((ids.find? (fun p => p.1 == n)).map (·.2)).getD 65535
+  let it := q.iter.map fun e => s!"{e.num}:{e.prio}:{eid e.num}"
+  s!"Q {q.next} {Chunk.qLen q.debug},{Chunk.qLen q.info},{Chunk.qLen q.crit} " ++
+  s!"{if it.isEmpty then "-" else ";".intercalate it} " ++
+  s!"{rNums (q.crit.map (·.num))}/{rNums (q.info.map (·.num))}/{rNums (q.debug.map (·.num))}"
+
+/-- does a subscription that asked for `sel` (`w` = every event of the cluster, `e0` / `e1` = one event) select
+the event id `eid`? -/
+def selects (sel : String) (eid : Nat) : Bool :=
+  if sel = "e0" then eid == 0 else if sel = "e1" then eid == 1 else true
+
+/-- the implementation's queue dump: the number the next push assigns and the retained events
+`(number, event id)` in the implementation's iteration order -/
+def parseQ (sec : String) : Nat × List (Nat × Nat) :=
+  match words sec with
+  | "Q" :: nx :: _ :: it :: _ =>
+    let evs := if it = "-" then [] else (it.splitOn ";").filterMap fun item =>
+      match (item.splitOn ":").map String.toNat? with
+      | [some n, _, some e] => some (n, e)
+      | _ => none
+    ((nx.toNat?).getD 0, evs)
+  | _ => (0, [])
+
+def parseNums (s : String) : List Nat := if s = "-" then [] else (s.splitOn ",").filterMap String.toNat?
+
+/-- `Events::watermark` = `next_event_number.wrapping_sub(1)` -/
+def wmOf (next : Nat) : Nat := (next + IMAX) % U64
+
+/-- **the oracle of a `read`** (the specification `Subs.OwedReport` in its executable form `Subs.owedNumbers`,
+evaluated on the implementation's own outputs): the events a report to the live subscription `o` carries are
+EXACTLY the subscribed events still in the queue whose number is above the event watermark the subscriber has
+acknowledged and not above the snapshot the report will commit, in increasing order. Events that were evicted from
+the last ring are not in the queue: lost legitimately. -/
+def oracleRead (os : List OSub) (id : Nat) (sel : String) (retained : List (Nat × Nat)) (got : List Nat) : Option String :=
+  match os.find? (fun o => o.id = id) with
+  | none => none
+  | some o =>
+    match o.flight with
+    | none => none
+    | some fl =>
+      let selected := (retained.filter fun p => selects sel p.2).map (·.1)
+      let want := owedNumbers o.ackedEv fl.evwm selected
+      if got = want then none else
+      let missing := want.filter fun n => !(got.contains n)
+      let extra := got.filter fun n => !(want.contains n)
+      some (s!"the report to subscription {id} (acknowledged event watermark {o.ackedEv}, snapshot {fl.evwm}) carries the events {got}; " ++
+        s!"the subscribed events still in the queue above its watermark are {want}" ++
+        (if !missing.isEmpty then s!": {missing} skipped although retained (lost once the report is acknowledged)"
+         else if !extra.isEmpty then s!": {extra} are not owed"
+         else ": not in increasing order"))
+
+def evsStep (st : St) (q : Chunk.Queue) (k : Nat) (ids : List (Nat × Nat)) (ws : List String) (out : String) : St × String :=
+  if st.dead then (st, "ok") else
+  if (words out).head? = some "panic" then ({ st with dead := true }, "ORA the implementation panicked") else
+  let secs := sections out
+  let qsec := secs.getLast?.getD ""
+  let outT := " | ".intercalate secs.dropLast
+  let (inext, iret) := parseQ qsec
+  let res := words (secs.getD 0 "")
+  match ws with
+  | ["push", ps, es, ls, ks] =>
+    match ps.toNat?, es.toNat?, ls.toNat?, ks.toNat? with
+    | some prio, some eid, some plen, some cnt =>
+      let cnt := max 1 (min cnt 64)
+      let plen := min plen 200
+      let r := (List.range cnt).foldl (fun (acc : Chunk.Queue × List (Nat × Nat) × List Nat × Bool) _ =>
+        let (q, ids, nums, bad) := acc
+        if bad then acc else
+        let num := q.next
+        match q.push prio (k + plen + numExtra num) none with
+        | (q', .ok n) => (q', ids ++ [(n, eid % 2)], nums ++ [n], false)
+        | (q', .error _) => (q', ids, nums ++ [num], true)) (q, ids, [], false)
+      let (q', ids', nums, bad) := r
+      let mres := if bad then "err ResourceExhausted" else s!"{nums.head?.getD 0}-{nums.getLast?.getD 0}"
+      let mout := s!"{mres} | {rState st.m} | {rQueue q' ids'}"
+      let st' := { st with evs := some (q', k, ids') }
+      -- oracle: the numbers handed out continue the queue's numbering, the watermark is the last one
+      let wmBefore := wmOf q.next
+      let viol : Option String :=
+        match res with
+        | [rng] =>
+          match (rng.splitOn "-").map String.toNat? with
+          | [some a, some b] =>
+            if a ≠ wmBefore + 1 ∨ b + 1 ≠ a + cnt ∨ wmOf inext ≠ b then
+              some s!"{cnt} events pushed after watermark {wmBefore} got the numbers {a}-{b}, the watermark is then {wmOf inext}"
+            else none
+          | _ => none
+        | _ => none
+      match viol with
+      | some why => (st', s!"ORA {why}")
+      | none => if mout = out then (st', "ok") else (st', s!"DIS {mout}")
+    | _, _, _, _ => (st, "BAD push")
+  | ["read", ids_, sel] =>
+    match ids_.toNat? with
+    | none => (st, "BAD read")
+    | some id =>
+      let selF : Chunk.QEv → Bool := fun e => selects sel (((ids.find? (fun p => p.1 == e.num)).map (·.2)).getD 65535)
+      let mres := match st.m.ctxs.find? (fun c => c.sub.id == id) with
+        | none => "noctx"
+        | some c => s!"{c.sub.seenEv} {c.nextEv} {rNums (c.reportEvents selF q)}"
+      let mout := s!"{mres} | {rState st.m} | {rQueue q ids}"
+      let viol := match res with
+        | [_, _, nums] => oracleRead st.o id sel iret (parseNums nums)
+        | _ => none
+      match viol with
+      | some why => (st, s!"ORA {why}")
+      | none => if mout = out then (st, "ok") else (st, s!"DIS {mout}")
+  | _ =>
+    -- a table op: `q` = the queue's watermark of the moment (model: of the model queue; oracle: of the real one)
+    let subst (wm : Nat) := ws.zipIdx.map fun (t, i) => if i > 0 && t = "q" then toString wm else t
+    match modelStep st.m (subst (wmOf q.next)) with
+    | none => (st, "BAD op")
+    | some (m', mres) =>
+      let mout := s!"{mres} | {rState m'} | {rQueue q ids}"
+      let (o', viol) := oracle st.m.hz st.m.n st.okv st.o (subst (wmOf inext)) outT
+      let st' := { st with m := m', o := o' }
+      match viol with
+      | some why => (st', s!"ORA {why}")
+      | none => if mout = out then (st', "ok") else (st', s!"DIS {mout}")
+
 def step (st : St) (line : String) : St × String :=
   let (op, out) := splitArrow line
   match words op with
   | "case" :: _ :: "sys" :: hdr => ({ sys := some (Driver.C13Sys.initSt hdr) }, "case")
+  | "case" :: _ :: "evq" :: _ => ({ evq := some EvQ.new }, "case")
+  | "case" :: _ :: "evs" :: ns :: hzs :: rings :: ks :: _ =>
+    match ns.toNat?, hzs.toNat?, rings.toNat?, (ks.drop 2).toNat? with
+    | some n, some hz, some ring, some k => ({ m := State.new hz n, evs := some (Chunk.Queue.new ring, k, []) }, "case")
+    | _, _, _, _ => ({}, "BAD case header")
   | "case" :: _ :: _ :: ns :: hzs :: _ =>
     match ns.toNat?, hzs.toNat? with
     | some n, some hz => ({ m := State.new hz n }, "case")
@@ -415,6 +555,24 @@ def step (st : St) (line : String) : St × String :=
     if let some s := st.sys then
       let (s', v) := Driver.C13Sys.step s ws out
       ({ st with sys := some s' }, v)
+    else
+    if let some (q, k, ids) := st.evs then evsStep st q k ids ws out
+    else
+    if let some q := st.evq then
+      -- the event queue's numbering: model = `EvQ.push` / `EvQ.watermark`; oracle: the numbers `push`
+      -- hands out are consecutive and the watermark is the last one handed out
+      match ws with
+      | ["push", ks] =>
+        let k := (ks.toNat?).getD 1
+        let (q', nums) := (List.range k).foldl (fun (acc : EvQ × List Nat) _ =>
+          let r := acc.1.push
+          (r.2, acc.2 ++ [r.1])) (q, [])
+        let m := s!"{nums.head?.getD 0}-{nums.getLast?.getD 0} {q'.next}"
+        if m = out then ({ st with evq := some q' }, "ok") else ({ st with evq := some q' }, s!"DIS {m}")
+      | ["wm"] =>
+        let m := toString q.watermark
+        if m = out then (st, "ok") else (st, s!"DIS {m}")
+      | _ => (st, "BAD evq op")
     else
     if st.dead then (st, "ok") else
     if (words out).head? = some "panic" then ({ st with dead := true }, "ORA the implementation panicked") else
